@@ -16,37 +16,61 @@ def dmax (e s c : Int) : Int :=
   if e = 15 then (if s % 4 = 3 ∧ (s = 99 → c = 3) then 29 else 28)
   else if e = 5 ∨ e = 7 ∨ e = 10 ∨ e = 12 then 30 else 31
 
+theorem dmax_facts (e d s c : Int) (hdmax : d ≤ dmax e s c) :
+    d ≤ 31 ∧ (e = 15 → d ≤ 29) ∧ (e = 15 → d = 29 → (s % 4 = 3 ∧ (s = 99 → c = 3)))
+      ∧ ((e = 5 ∨ e = 7 ∨ e = 10 ∨ e = 12) → d ≤ 30) := by
+  unfold dmax at hdmax
+  split_ifs at hdmax with h1 h2 h3
+  · exact ⟨by omega, fun _ => by omega, fun _ _ => h2, fun h => by omega⟩
+  · exact ⟨by omega, fun _ => by omega, fun _ h => by omega, fun h => by omega⟩
+  · exact ⟨by omega, fun h => absurd h h1, fun h => absurd h h1, fun _ => hdmax⟩
+  · exact ⟨by omega, fun h => absurd h h1, fun h => absurd h h1, fun h => absurd h h3⟩
+
 theorem kd_bounds (e d s c : Int) (he4 : 4 ≤ e) (he15 : e ≤ 15) (hd1 : 1 ≤ d)
     (hdmax : d ≤ dmax e s c) :
     123 ≤ kOf e + d ∧ kOf e + d ≤ 488 ∧ (kOf e + d = 488 → (s % 4 = 3 ∧ (s = 99 → c = 3))) := by
-  unfold dmax at hdmax
+  obtain ⟨f1, f2, f3, f4⟩ := dmax_facts e d s c hdmax
   unfold kOf
-  interval_cases e <;> norm_num at hdmax ⊢ <;> (try split_ifs at hdmax with hh) <;>
-    first
-    | (refine ⟨by omega, by omega, fun h => ?_⟩; first | exact hh | (exfalso; omega))
-    | omega
+  refine ⟨by interval_cases e <;> omega, by interval_cases e <;> omega, ?_⟩
+  intro h
+  have he : e = 15 := by interval_cases e <;> omega
+  have hd : d = 29 := by subst he; omega
+  exact f3 he hd
 
 theorem month_code (e d s c : Int) (he4 : 4 ≤ e) (he15 : e ≤ 15) (hd1 : 1 ≤ d)
     (hdmax : d ≤ dmax e s c) : 10000 * (kOf e + d) / 306001 = e := by
-  unfold dmax at hdmax
+  obtain ⟨f1, f2, _, f4⟩ := dmax_facts e d s c hdmax
   unfold kOf
-  interval_cases e <;> norm_num at hdmax ⊢ <;> (try split_ifs at hdmax) <;> omega
+  interval_cases e <;> omega
 
 theorem alpha_of_forward (q c s kd z : Int) (hc0 : 0 ≤ c) (hc3 : c ≤ 3) (hs0 : 0 ≤ s) (hs : s ≤ 99)
     (hkd1 : 123 ≤ kd) (hkd2 : kd ≤ 488)
     (hleap : kd = 488 → (s % 4 = 3 ∧ (s = 99 → c = 3)))
     (hz : z = 146097 * q + 36524 * c + 365 * s + s / 4 + 1722519 + kd + 2 - 1524) :
     (4 * z - 7468865) / 146097 = 4 * q + c - 4 := by
-  have c_cases : c = 0 ∨ c = 1 ∨ c = 2 ∨ c = 3 := by omega
-  rcases c_cases with h | h | h | h <;> subst h <;> omega
+  have h1 : 146097 * (4 * q + c - 4) ≤ 4 * z - 7468865 := by omega
+  have h2 : 4 * z - 7468865 < 146097 * (4 * q + c - 4 + 1) := by
+    by_cases hk : kd = 488
+    · obtain ⟨l1, l2⟩ := hleap hk
+      by_cases hs99 : s = 99
+      · have := l2 hs99; omega
+      · omega
+    · omega
+  omega
 
 theorem year_code (q c s kd : Int) (hc0 : 0 ≤ c) (hc3 : c ≤ 3) (hs0 : 0 ≤ s) (hs : s ≤ 99)
     (hkd1 : 123 ≤ kd) (hkd2 : kd ≤ 488)
     (hleap : kd = 488 → (s % 4 = 3 ∧ (s = 99 → c = 3))) :
-    (20 * (146097 * q + 36524 * c + 365 * s + s / 4 + 1722519 + kd) - 2442) / 7305
+    (20 * (146100 * q + 36525 * c + 365 * s + s / 4 + 1722519 + kd) - 2442) / 7305
       = 400 * q + 100 * c + s + 4716 := by
-  have c_cases : c = 0 ∨ c = 1 ∨ c = 2 ∨ c = 3 := by omega
-  rcases c_cases with h | h | h | h <;> subst h <;> omega
+  have h1 : 7305 * (400 * q + 100 * c + s + 4716)
+      ≤ 20 * (146100 * q + 36525 * c + 365 * s + s / 4 + 1722519 + kd) - 2442 := by omega
+  have h2 : 20 * (146100 * q + 36525 * c + 365 * s + s / 4 + 1722519 + kd) - 2442
+      < 7305 * (400 * q + 100 * c + s + 4716 + 1) := by
+    by_cases hk : kd = 488
+    · obtain ⟨l1, _⟩ := hleap hk; omega
+    · omega
+  omega
 
 /-- the integer core of the inverse, on the Meeus-shifted date:
     `W = year' + 4716`, `e = month' + 1 ∈ 4…15`, day `d`. -/
@@ -66,14 +90,14 @@ theorem inverse_core (q c s e d z : Int)
   obtain ⟨k1, k2, k3⟩ := kd_bounds e d s c he4 he15 hd1 hdmax
   have hα : α = 4 * q + c - 4 :=
     alpha_of_forward q c s (kOf e + d) z hc0 hc3 hs0 hs k1 k2 k3 (by rw [hz]; ring)
-  have hb : b = 146097 * q + 36524 * c + 365 * s + s / 4 + 1722519 + (kOf e + d) := by
+  have hb : b = 146100 * q + 36525 * c + 365 * s + s / 4 + 1722519 + (kOf e + d) := by
     show z + 1 + α - α / 4 + 1524 = _
     rw [hα]; omega
   have hcc : cc = 400 * q + 100 * c + s + 4716 := by
     show (20 * b - 2442) / 7305 = _
     rw [hb]
     exact year_code q c s (kOf e + d) hc0 hc3 hs0 hs k1 k2 k3
-  have hdd : dd = 146097 * q + 36524 * c + 365 * s + s / 4 + 1722519 := by
+  have hdd : dd = 146100 * q + 36525 * c + 365 * s + s / 4 + 1722519 := by
     show 1461 * cc / 4 = _
     rw [hcc]; omega
   have hbd : b - dd = kOf e + d := by rw [hb, hdd]; ring
@@ -84,5 +108,237 @@ theorem inverse_core (q c s e d z : Int)
   refine ⟨hα, hcc, he', ?_⟩
   rw [he', hbd]
   unfold kOf; omega
+
+
+/-! ### Float-expression floors at ℝ -/
+
+theorem trunc_alpha (Z : Int) (hZ : 2299161 ≤ Z) :
+    Trig.trunc (((Z : ℝ) - 1867216.25) / 36524.25) = (4 * Z - 7468865) / 146097 := by
+  have : ((Z : ℝ) - 1867216.25) / 36524.25 = ((4 * Z - 7468865 : ℤ) : ℝ) / ((146097 : ℤ) : ℝ) := by
+    push_cast; norm_num; ring
+  rw [this, trunc_int_div _ _ (by omega) (by norm_num)]
+
+theorem trunc_c (b : Int) (hb : 0 ≤ 20 * b - 2442) :
+    Trig.trunc (((b : ℝ) - 122.1) / 365.25) = (20 * b - 2442) / 7305 := by
+  have : ((b : ℝ) - 122.1) / 365.25 = ((20 * b - 2442 : ℤ) : ℝ) / ((7305 : ℤ) : ℝ) := by
+    push_cast; norm_num; ring
+  rw [this, trunc_int_div _ _ hb (by norm_num)]
+
+theorem trunc_e (n : Int) (hn : 0 ≤ n) :
+    Trig.trunc ((n : ℝ) / 30.6001) = 10000 * n / 306001 := by
+  have : (n : ℝ) / 30.6001 = ((10000 * n : ℤ) : ℝ) / ((306001 : ℤ) : ℝ) := by
+    push_cast; norm_num; ring
+  rw [this, trunc_int_div _ _ (by omega) (by norm_num)]
+
+theorem trunc_int_add_frac (n : Int) (f : ℝ) (hn : 0 ≤ n) (h0 : 0 ≤ f) (h1 : f < 1) :
+    Trig.trunc ((n : ℝ) + f) = n := by
+  have hnr : (0 : ℝ) ≤ (n : ℝ) := by exact_mod_cast hn
+  rw [trunc_of_nonneg (by linarith)]
+  rw [Int.floor_eq_iff]
+  constructor <;> linarith
+
+/-- the time-of-day split: hours, minutes, seconds of a whole number of seconds -/
+theorem time_split (secs : Int) (h0 : 0 ≤ secs) (h1 : secs < 86400) :
+    let total : ℝ := ((secs : ℝ) / 86400) * 86400.0
+    let hour := Trig.trunc (total / 3600.0)
+    let total2 := total - ((hour * 3600 : ℤ) : ℝ)
+    let minute := Trig.trunc (total2 / 60.0)
+    let total3 := total2 - ((minute * 60 : ℤ) : ℝ)
+    let seconds := Trig.trunc total3
+    hour = secs / 3600 ∧ minute = secs % 3600 / 60 ∧ seconds = secs % 60 := by
+  intro total hour total2 minute total3 seconds
+  have ht : total = (secs : ℝ) := by simp only [total]; norm_num
+  have hh : hour = secs / 3600 := by
+    simp only [hour]; rw [ht]
+    have : (secs : ℝ) / 3600.0 = (secs : ℝ) / ((3600 : ℤ) : ℝ) := by norm_num
+    rw [this, trunc_int_div _ _ h0 (by norm_num)]
+  have ht2 : total2 = ((secs % 3600 : ℤ) : ℝ) := by
+    simp only [total2]; rw [ht, hh]
+    have : secs % 3600 = secs - secs / 3600 * 3600 := by omega
+    rw [this]; push_cast; ring
+  have hm : minute = secs % 3600 / 60 := by
+    simp only [minute]; rw [ht2]
+    have : ((secs % 3600 : ℤ) : ℝ) / 60.0 = ((secs % 3600 : ℤ) : ℝ) / ((60 : ℤ) : ℝ) := by norm_num
+    rw [this, trunc_int_div _ _ (by omega) (by norm_num)]
+  have ht3 : total3 = ((secs % 60 : ℤ) : ℝ) := by
+    simp only [total3]; rw [ht2, hm]
+    have : secs % 60 = secs % 3600 - secs % 3600 / 60 * 60 := by omega
+    rw [this]; push_cast; ring
+  refine ⟨hh, hm, ?_⟩
+  simp only [seconds]; rw [ht3, trunc_intCast]
+
+
+/-! ### From calendar fields to the decomposed form -/
+
+theorem forward_decomp (y m d : Int) (hy : 1 ≤ y) (hm1 : 1 ≤ m) (hm12 : m ≤ 12) :
+    let Y := if m ≤ 2 then y - 1 else y
+    let e := (if m ≤ 2 then m + 12 else m) + 1
+    let q := Y / 400
+    let c := Y % 400 / 100
+    let s := Y % 100
+    meeusInt y m d - 1524
+        = 146097 * q + 36524 * c + 365 * s + s / 4 + 1722519 + kOf e + d + 2 - 1524
+      ∧ 0 ≤ c ∧ c ≤ 3 ∧ 0 ≤ s ∧ s ≤ 99 ∧ 4 ≤ e ∧ e ≤ 15 ∧ Y = 400 * q + 100 * c + s ∧ 0 ≤ Y := by
+  intro Y e q c s
+  have hY : 0 ≤ Y := by simp only [Y]; split <;> omega
+  have e2 : Y % 400 % 100 = Y % 100 := Int.emod_emod_of_dvd Y (by norm_num)
+  have hdec : Y = 400 * q + 100 * c + s := by simp only [q, c, s]; omega
+  have h100 : Y / 100 = 4 * q + c := by simp only [q, c]; omega
+  have h4 : Y / 4 = 100 * q + 25 * c + s / 4 := by simp only [q, c, s]; omega
+  have h400 : Y / 100 / 4 = q := by rw [div_100_div_4]
+  have ty := meeus_year_term Y
+  refine ⟨?_, by simp only [c]; omega, by simp only [c]; omega, by simp only [s]; omega,
+    by simp only [s]; omega, by simp only [e]; split <;> omega, by simp only [e]; split <;> omega,
+    hdec, hY⟩
+  unfold meeusInt kOf
+  simp only
+  show 1461 * (Y + 4716) / 4 + 306001 * e / 10000 + d + (2 - Y / 100 + Y / 100 / 4) - 1524 = _
+  rw [ty, h400, h100, h4]
+  omega
+
+theorem valid_dmax (y m d : Int) (hv : validYMD y m d = true) :
+    let Y := if m ≤ 2 then y - 1 else y
+    let e := (if m ≤ 2 then m + 12 else m) + 1
+    1 ≤ y ∧ 1 ≤ m ∧ m ≤ 12 ∧ 1 ≤ d ∧ d ≤ dmax e (Y % 100) (Y % 400 / 100) := by
+  intro Y e
+  unfold validYMD at hv
+  simp only [Bool.and_eq_true, decide_eq_true_eq] at hv
+  obtain ⟨⟨⟨⟨⟨hy1, _⟩, hm1⟩, hm12⟩, hd1⟩, hd2⟩ := hv
+  refine ⟨hy1, hm1, hm12, hd1, ?_⟩
+  unfold daysInMonth at hd2
+  unfold dmax
+  have e2 : Y % 400 % 100 = Y % 100 := Int.emod_emod_of_dvd Y (by norm_num)
+  have e1 : Y % 100 % 4 = Y % 4 := Int.emod_emod_of_dvd Y (by norm_num)
+  by_cases h2 : m = 2
+  · subst h2
+    simp only [Y, e] at *
+    norm_num at hd2 ⊢
+    by_cases hl : isLeap y = true
+    · have := (isLeap_iff y).mp hl
+      rw [if_pos hl] at hd2
+      rw [if_pos]
+      · exact hd2
+      · constructor
+        · omega
+        · intro h99; omega
+    · rw [if_neg hl] at hd2
+      split_ifs <;> omega
+  · have he : e ≠ 15 := by simp only [e]; split <;> omega
+    rw [if_neg he]
+    simp only [h2, beq_iff_eq, Bool.or_eq_true] at hd2
+    norm_num at hd2
+    split_ifs at hd2 with h30
+    · rw [if_pos]
+      · exact hd2
+      · simp only [e]; rcases h30 with ((h | h) | h) | h <;> subst h <;> norm_num
+    · split_ifs <;> omega
+
+
+/-! ### The round trip -/
+
+/-- **C15 round trip**: for every valid calendar date from 1582-10-15 on and every whole second
+    of the day, converting the Julian day back returns exactly the original instant. -/
+theorem jd_roundtrip (y m d secs : Int) (hv : validYMD y m d = true)
+    (hs0 : 0 ≤ secs) (hs1 : secs < 86400) (hg : 2299161 ≤ meeusInt y m d - 1524) :
+    julianDayToDateTime (julianDayYMD (α := ℝ) y m d (some secs) .gregorian)
+      = .ok (ymdToOrd y m d * usPerDay + secs * usPerSec) := by
+  obtain ⟨hy1, hm1, hm12, hd1, hdm⟩ := valid_dmax y m d hv
+  obtain ⟨hz, hc0, hc3, hss0, hss, he4, he15, hdec, hY0⟩ := forward_decomp y m d hy1 hm1 hm12
+  set Y := (if m ≤ 2 then y - 1 else y) with hYdef
+  set e := (if m ≤ 2 then m + 12 else m) + 1 with hedef
+  set Z := meeusInt y m d - 1524 with hZdef
+  have core := inverse_core (Y / 400) (Y % 400 / 100) (Y % 100) e d Z hc0 hc3 hss0 hss he4 he15 hd1 hdm hz
+  simp only at core
+  obtain ⟨cα, ccc, ce, cday⟩ := core
+  -- the float value of the forward conversion
+  have hjd : julianDayYMD (α := ℝ) y m d (some secs) .gregorian
+      = ((Z : ℤ) : ℝ) - 0.5 + (secs : ℝ) / 86400 := by
+    rw [jd_time, julianDayYMD_eq y m d hy1 hm1, hZdef]
+    push_cast; norm_num; ring
+  have hf0 : (0 : ℝ) ≤ (secs : ℝ) / 86400 := by
+    have : (0 : ℝ) ≤ (secs : ℝ) := by exact_mod_cast hs0
+    positivity
+  have hf1 : (secs : ℝ) / 86400 < 1 := by
+    have : (secs : ℝ) < 86400 := by exact_mod_cast hs1
+    rw [div_lt_one (by norm_num)]; exact this
+  have hZ0 : 0 ≤ Z := by omega
+  unfold julianDayToDateTime
+  rw [hjd]
+  have hjd2 : ((Z : ℤ) : ℝ) - 0.5 + (secs : ℝ) / 86400 + 0.5 = (Z : ℝ) + (secs : ℝ) / 86400 := by
+    norm_num; ring
+  simp only [hjd2, trig_ofInt]
+  have t0 := trunc_int_add_frac Z _ hZ0 hf0 hf1
+  simp only [t0]
+  have hnz : ¬ (Z < 2299161) := by omega
+  simp only [if_neg hnz]
+  have t1 := trunc_alpha Z hg
+  simp only [t1]
+  have hα0 : 0 ≤ (4 * Z - 7468865) / 146097 := Int.ediv_nonneg (by omega) (by norm_num)
+  have t2 := trunc_div_4 _ hα0
+  simp only [t2]
+  set α := (4 * Z - 7468865) / 146097 with hαdef
+  set b := Z + 1 + α - α / 4 + 1524 with hbdef
+  have hbpos : 0 ≤ 20 * b - 2442 := by
+    have : α - α / 4 ≥ 0 := by omega
+    omega
+  have t3 := trunc_c b hbpos
+  simp only [t3]
+  set cc := (20 * b - 2442) / 7305 with hccdef
+  have hcc0 : 0 ≤ cc := Int.ediv_nonneg hbpos (by norm_num)
+  have t4 := trunc_365_25 cc hcc0
+  simp only [t4]
+  have hbd : 0 ≤ b - 1461 * cc / 4 := by rw [cday.symm] at hd1; omega
+  have t5 := trunc_e _ hbd
+  simp only [t5]
+  have he0 : 0 ≤ 10000 * (b - 1461 * cc / 4) / 306001 := Int.ediv_nonneg (by omega) (by norm_num)
+  have t6 := trunc_30_6001 _ he0
+  simp only [t6]
+  -- the day number and the fraction
+  have hday : (b - 1461 * cc / 4 - 306001 * (10000 * (b - 1461 * cc / 4) / 306001) / 10000) = d := cday
+  simp only [hday]
+  have hfrac : (Z : ℝ) + (secs : ℝ) / 86400 - (Z : ℝ) = (secs : ℝ) / 86400 := by ring
+  simp only [hfrac]
+  have t7 := trunc_int_add_frac d _ (by omega) hf0 hf1
+  simp only [t7]
+  have hfrac2 : (d : ℝ) + (secs : ℝ) / 86400 - (d : ℝ) = (secs : ℝ) / 86400 := by ring
+  simp only [hfrac2]
+  obtain ⟨th, tm, ts⟩ := time_split secs hs0 hs1
+  simp only [th] at tm ts ⊢
+  simp only [tm] at ts ⊢
+  simp only [ts]
+  -- month and year
+  simp only [ce]
+  simp only [ccc]
+  have hmonth : (if e < 14 then e - 1 else e - 13) = m := by
+    simp only [hedef]; split_ifs <;> omega
+  simp only [hmonth]
+  have hyear : (if m > 2 then 400 * (Y / 400) + 100 * (Y % 400 / 100) + Y % 100 + 4716 - 4716
+      else 400 * (Y / 400) + 100 * (Y % 400 / 100) + Y % 100 + 4716 - 4715) = y := by
+    rw [← hdec]
+    simp only [hYdef]; split_ifs <;> omega
+  simp only [hyear]
+  -- the constructors
+  unfold mkDate?
+  rw [if_pos hv]
+  simp only [bind, Except.bind]
+  unfold mkDateTime?
+  rw [if_pos (by omega)]
+  unfold usPerDay usPerHour usPerMin usPerSec
+  congr 1
+  omega
+
+
+/-- the same, with the bound stated on the proleptic-Gregorian ordinal:
+    577736 = date(1582, 10, 15).toordinal() -/
+theorem jd_roundtrip_from_1582 (y m d secs : Int) (hv : validYMD y m d = true)
+    (hs0 : 0 ≤ secs) (hs1 : secs < 86400) (hg : 577736 ≤ ymdToOrd y m d) :
+    julianDayToDateTime (julianDayYMD (α := ℝ) y m d (some secs) .gregorian)
+      = .ok (ymdToOrd y m d * usPerDay + secs * usPerSec) := by
+  obtain ⟨_, hm1, hm12, _, _⟩ := valid_dmax y m d hv
+  apply jd_roundtrip y m d secs hv hs0 hs1
+  rw [meeusInt_eq_ord y m d hm1 hm12]; omega
+
+/-- non-vacuity: 2020-01-01 12:00:00 (the witness of defect D10a) satisfies the hypotheses -/
+example : validYMD 2020 1 1 = true ∧ 577736 ≤ ymdToOrd 2020 1 1 := by decide
 
 end Astral.C15Inv
